@@ -138,6 +138,9 @@ func (f *flowSpec) Call(x *gea.Exec, st *gea.State, call *ast.CallExpr, env *gea
 	case recv == "github.com/google/btree.BTree":
 		s := x.Effect(st, "BTREE:"+callee.Name(), call.Pos(), args)
 		return one(s)
+	case recv == "container/list.List":
+		s := x.Effect(st, "LIST:"+callee.Name(), call.Pos(), args)
+		return one(s)
 	case recv == "bytes.Buffer":
 		s := x.Effect(st, "BUF:"+callee.Name(), call.Pos(), args)
 		return one(s)
